@@ -96,11 +96,16 @@ func (i *Index) Add(r Record, c bgzf.Chunk, placed, mapped bool) error {
 	rid, ok := i.nameMap[refName]
 	if !ok {
 		rid = len(i.refNames)
+	}
+	shim := tabixShim{id: rid, start: r.Start(), end: r.End()}
+	err := i.idx.Add(shim, internal.BinFor(r.Start(), r.End()), c, placed, mapped)
+	if !ok && rid < len(i.idx.Refs) {
+		// The record started a new reference; names are kept
+		// in step with the references of the index.
 		i.refNames = append(i.refNames, refName)
 		i.nameMap[refName] = rid
 	}
-	shim := tabixShim{id: rid, start: r.Start(), end: r.End()}
-	return i.idx.Add(shim, internal.BinFor(r.Start(), r.End()), c, placed, mapped)
+	return err
 }
 
 // Chunks returns a []bgzf.Chunk that corresponds to the given genomic interval.
